@@ -49,3 +49,15 @@ Proof. intros Hl Hs. destruct (fw_budget ones 0%nat false Hl Hs) as [A B]. split
 Lemma site_time_mirror L j s : (match s with TSite i _ => i < L | TBond i => S i < L | TPair i => S i < L end)%nat -> (j < L)%nat ->
   site_time j (mirror L s) = site_time (L - 1 - j) s.
 Proof. destruct s as [i f|i|i]; intros Hi Hj; cbn [mirror site_time]; cmp. Qed.
+
+(* time is spent on site j exactly in the steps that work with operator tensor j of the Hamiltonian handed to the call *)
+Theorem site_time_iff_own_operator j s : site_time j s <> 0%Z <-> In j (step_ops s).
+Proof. destruct s as [i f|i|i]; cbn [site_time step_ops In].
+  - destruct (Nat.eqb_spec i j) as [->|Ne]; [destruct f; split; intro H; [left; reflexivity|discriminate|left; reflexivity|discriminate]|].
+    split; [intro H; exfalso; apply H; reflexivity|intros [H|[]]; exfalso; apply Ne; exact H].
+  - split; [intro H; exfalso; apply H; reflexivity|intros []].
+  - destruct (Nat.eqb_spec i j) as [->|Ne]; cbn [orb].
+    + split; [intro; left; reflexivity|discriminate].
+    + destruct (Nat.eqb_spec (S i) j) as [<-|Ne2].
+      * split; [intro; right; left; reflexivity|discriminate].
+      * split; [intro H; exfalso; apply H; reflexivity|intros [H|[H|[]]]; exfalso; [apply Ne|apply Ne2]; exact H]. Qed.
